@@ -512,6 +512,8 @@ func C18(p *engine.Prog, r *engine.Report) {
 		}
 		runDeterminism(p, r, "C18-R5", ents, 0)
 	}
+	// a compressed certificate keeps every individually signed field of every vote (shared with C07)
+	importRules(p, r, "C07", map[string]string{"C07-R6": "C18-R6"})
 }
 
 func encNames(fs []*ssa.Function) string {
@@ -800,6 +802,27 @@ func c18R3(p *engine.Prog, r *engine.Report, cts []*codecType) {
 		if np > 0 {
 			r.Check(len(mism) == 0, "C18-R3", tname+"|signature bytes and wire encoding fill shared proto fields from the same fields", p.Pos(ct.sig.Pos()), itoa(int64(np))+" shared proto fields agree", strings.Join(mism, "; "))
 		}
+		// ... and under the same presence conditions (an optional field that is signed only when
+		// non-zero but encoded whenever non-nil makes two different objects share one signature)
+		sigConds, sigVals := protoConds(sigC)
+		encConds, encVals := protoConds(closureOf(ct.enc))
+		var cm []string
+		nc := 0
+		for g, cs := range sigConds {
+			ec, shared := encConds[g]
+			if !shared {
+				continue
+			}
+			nc++
+			a, b := condsModuloDeref(cs, sigVals[g], ec, encVals[g])
+			if a != b {
+				cm = append(cm, g+": signed under {"+a+"}, encoded under {"+b+"}")
+			}
+		}
+		sort.Strings(cm)
+		if nc > 0 {
+			r.Check(len(cm) == 0, "C18-R3", tname+"|signature bytes and wire encoding fill shared proto fields under the same conditions", p.Pos(ct.sig.Pos()), itoa(int64(nc))+" shared proto fields agree", strings.Join(cm, "; ")+": two objects with different wire bytes (and hashes) carry the same signature")
+		}
 	}
 	// legacy RLP digest
 	if sh, err := p.Func("blockchain/types", "signatureHash"); err == nil {
@@ -855,6 +878,73 @@ func protoPairs(fns []*ssa.Function) map[string]map[string]bool {
 		}
 	}
 	return out
+}
+
+// protoConds maps each generated-message field stored by fns to the sets of branch conditions
+// that control its stores, and to the renderings of the stored values.
+func protoConds(fns []*ssa.Function) (map[string][][]string, map[string][]string) {
+	out := map[string][][]string{}
+	vals := map[string][]string{}
+	for _, f := range fns {
+		for _, b := range f.Blocks {
+			for _, in := range b.Instrs {
+				s, ok := in.(*ssa.Store)
+				if !ok {
+					continue
+				}
+				n, idx, ok := ownerNamed(s.Addr)
+				if !ok || !isModelsType(n) {
+					continue
+				}
+				g := n.Obj().Name() + "." + n.Underlying().(*types.Struct).Field(idx).Name()
+				out[g] = append(out[g], controlSig(b))
+				vals[g] = append(vals[g], renderVal(s.Val, 0))
+			}
+		}
+	}
+	return out, vals
+}
+
+// condsModuloDeref compares the condition sets of two siblings. A nil test `(P != nil)` that only
+// one side makes is dropped when the other side dereferences P in every value it stores for that
+// field (it cannot get there with P == nil either: the test is implicit).
+func condsModuloDeref(a [][]string, aVals []string, b [][]string, bVals []string) (string, string) {
+	derefsAll := func(vals []string, path string) bool {
+		if len(vals) == 0 {
+			return false
+		}
+		for _, v := range vals {
+			if !strings.Contains(v, path+".") && !strings.Contains(v, path+"[") {
+				return false
+			}
+		}
+		return true
+	}
+	norm := func(sets [][]string, otherSets [][]string, otherVals []string) string {
+		inOther := map[string]bool{}
+		for _, os := range otherSets {
+			for _, c := range os {
+				inOther[c] = true
+			}
+		}
+		var rendered []string
+		for _, cs := range sets {
+			var keep []string
+			for _, c := range cs {
+				if !inOther[c] && strings.HasPrefix(c, "(") && strings.HasSuffix(c, " != nil)") {
+					path := strings.TrimSuffix(strings.TrimPrefix(c, "("), " != nil)")
+					if derefsAll(otherVals, path) {
+						continue
+					}
+				}
+				keep = append(keep, c)
+			}
+			rendered = append(rendered, "["+strings.Join(keep, " && ")+"]")
+		}
+		sort.Strings(rendered)
+		return strings.Join(dedup(rendered), ",")
+	}
+	return norm(a, b, bVals), norm(b, a, aVals)
 }
 
 // ---------------------------------------------------------------- R4 hashes
